@@ -24,8 +24,9 @@ fn cfg() -> FolCfg {
     FolCfg {
         preds: vec![("p".into(), 1), ("q".into(), 2), ("s".into(), 0)],
         gvars: vec!["X".into(), "Y".into()],
-        ivars: vec!["N".into(), "M".into()],
-        svars: vec!["S".into()],
+        // the same name at several sorts: `exists X$i X` binds two variables
+        ivars: vec!["N".into(), "X".into(), "M".into()],
+        svars: vec!["S".into(), "X".into()],
         syms: vec!["a".into(), "b".into()],
         fcs: vec![("c".into(), Sort::G), ("n".into(), Sort::I), ("k".into(), Sort::S)],
         num_lo: -2,
